@@ -140,13 +140,24 @@ def edge_class(a, b, kind, nodes_el, nspec, offs, detail=""):
     return kind
 
 
+def mirror_spec(nspec):
+    """the molecule 'as if its elements were written in reverse': elements reversed, terminals of every object swapped"""
+    els = []
+    for e in reversed(nspec["elements"]):
+        e = dict(e)
+        if e["k"] == "sto":
+            e["left"], e["right"] = e["right"], e["left"]
+        els.append(e)
+    return {"elements": els, "mixture": nspec.get("mixture")}
+
+
 def eval_case(kind, data):
     import gbigsmiles
 
     res = new_result()
     outcomes = set()
     for fam, spec0 in data["specs"]:
-        for expect in (True, False):
+        for expect, variant in ((True, "plain"), (False, "plain"), (False, "graph-then-mirror"), (False, "mirror-first"), (True, "graph-then-mirror")):
             spec = to_sz(spec0) if expect else spec0
             text = R.print_spec(spec)
             nspec = R.normalize(spec)
@@ -155,6 +166,19 @@ def eval_case(kind, data):
             except Exception:  # noqa
                 res["extra"]["rejected"] = res["extra"].get("rejected", 0) + 1
                 continue
+            if variant != "plain":
+                # history: (graph of the molecule,) mirror it, graph of the mirror - must describe the MIRRORED molecule
+                if len(nspec["elements"]) < 2:
+                    continue
+                try:
+                    if variant == "graph-then-mirror":
+                        mol.gen_stochastic_atom_graph(expect_schulz_zimm_distribution=expect)
+                    mol = mol.gen_mirror()
+                    nspec = mirror_spec(nspec)
+                    text = text + " (mirrored, " + variant + ")"
+                except Exception as e:  # noqa
+                    viol(res, f"C17|mirror-raises|{type(e).__name__}", f"{text}: gen_mirror raises {type(e).__name__}: {str(e)[:60]}", {"text": text})
+                    continue
             try:
                 sag = mol.gen_stochastic_atom_graph(expect_schulz_zimm_distribution=expect)
                 G = sag.graph
